@@ -131,5 +131,28 @@ k("K85", "C03", "compression/lz4/lz4.go", "\t\tif _, err = io.CopyN(ioutil.Disca
 k("K86", "C03", "frame/decode.go", "io.LimitReader(source, int64(header.BodyLength))", "source",
   "compressed-body-bounded", "decompressor reads the unbounded stream")
 
+# ---- C01
+k("K26", "C01", "message/query_options.go", "\tif flags.Contains(primitive.QueryFlagPageSize) {\n\t\tif options.PageSize, err = primitive.ReadInt(source); err != nil {\n\t\t\treturn nil, fmt.Errorf(\"cannot read page size: %w\", err)\n\t\t}\n\t\tif flags.Contains(primitive.QueryFlagDsePageSizeBytes) {\n\t\t\toptions.PageSizeInBytes = true\n\t\t}\n\t}\n\tif flags.Contains(primitive.QueryFlagPagingState) {\n\t\tif options.PagingState, err = primitive.ReadBytes(source); err != nil {\n\t\t\treturn nil, fmt.Errorf(\"cannot read paging state: %w\", err)\n\t\t}\n\t}\n",
+  "\tif flags.Contains(primitive.QueryFlagPagingState) {\n\t\tif options.PagingState, err = primitive.ReadBytes(source); err != nil {\n\t\t\treturn nil, fmt.Errorf(\"cannot read paging state: %w\", err)\n\t\t}\n\t}\n\tif flags.Contains(primitive.QueryFlagPageSize) {\n\t\tif options.PageSize, err = primitive.ReadInt(source); err != nil {\n\t\t\treturn nil, fmt.Errorf(\"cannot read page size: %w\", err)\n\t\t}\n\t\tif flags.Contains(primitive.QueryFlagDsePageSizeBytes) {\n\t\t\toptions.PageSizeInBytes = true\n\t\t}\n\t}\n",
+  "enc-vs-dec:queryCodec@", "decoder reads paging state before page size")
+k("K27", "C01", "message/execute.go", "\tif version.SupportsResultMetadataId() {\n\t\tif execute.ResultMetadataId, err = primitive.ReadShortBytes(source)", "\tif version >= primitive.ProtocolVersion5 {\n\t\tif execute.ResultMetadataId, err = primitive.ReadShortBytes(source)",
+  "enc-vs-dec:executeCodec@D1", "decoder expects a field the encoder omits for DSE v1")
+k("K28", "C01", "message/batch.go", "\t\tcase primitive.BatchChildTypeQueryString:\n\t\t\tif child.Query, err = primitive.ReadLongString(source); err != nil {", "\t\tcase primitive.BatchChildTypePreparedId:\n\t\t\tif child.Query, err = primitive.ReadLongString(source); err != nil {",
+  "enc-vs-dec:batchCodec@", "child kind arms swapped (duplicate case would not compile, so one arm is relabelled)")
+C.pop()
+k2("K28", "C01", [("message/batch.go", "\t\tcase primitive.BatchChildTypeQueryString:\n\t\t\tif child.Query, err = primitive.ReadLongString(source); err != nil {", "\t\tcase primitive.BatchChildTypePreparedId:\n\t\t\tif child.Query, err = primitive.ReadLongString(source); err != nil {"),
+  ("message/batch.go", "\t\tcase primitive.BatchChildTypePreparedId:\n\t\t\tif child.Id, err = primitive.ReadShortBytes(source); err != nil {", "\t\tcase primitive.BatchChildTypeQueryString:\n\t\t\tif child.Id, err = primitive.ReadShortBytes(source); err != nil {")],
+  "enc-vs-dec:batchCodec@", "child kind arms swapped in the decoder")
+k("K29", "C01", "message/prepare.go", "type Prepare struct {\n", "type Prepare struct {\n\tHint string\n",
+  "field-coverage:Prepare.Hint", "exported field used by neither side")
+k("K30", "C01", "message/main.go", "\t&authSuccessCodec{},\n", "",
+  "registry:codec for OpCodeAuthSuccess", "codec dropped from the registry")
+k("K15", "C01", "message/result.go", "\tdefault:\n\t\treturn nil, fmt.Errorf(\"unknown RESULT type: %v\", resultType)\n\t}\n}", "\t}\n\treturn nil, nil\n}",
+  "non-nil-result:resultCodec@", "unknown result kind yields a nil message without error")
+k("K87", "C01", "frame/decode.go", "\tif header.IsResponse && header.Flags.Contains(primitive.HeaderFlagWarning) {", "\tif header.IsResponse && header.Flags.Contains(primitive.HeaderFlagWarning) && header.Version >= primitive.ProtocolVersion5 {",
+  "enc-vs-dec:frame.body@v4", "warnings read only from v5 on, written from v4 on")
+k("K88", "C01", "message/result_metadata.go", "\tif flags.Contains(primitive.RowsFlagMetadataChanged) {\n\t\tif metadata.NewResultMetadataId, err = primitive.ReadShortBytes(source)", "\tif flags.Contains(primitive.RowsFlagHasMorePages) {\n\t\tif metadata.NewResultMetadataId, err = primitive.ReadShortBytes(source)",
+  "enc-vs-dec:resultCodec@", "reader guards a field with the wrong flag constant")
+
 json.dump(C, open(os.path.join(os.path.dirname(os.path.abspath(__file__)), "controls.json"), "w"), indent=1)
 print(len(C), "controls")
